@@ -113,8 +113,8 @@ var (
 	formsTopAttrs = []string{"a1", "a2", "a3", "a4"}
 	formsLeaf     = &hcl.BodySchema{Attributes: []hcl.AttributeSchema{{Name: "z"}}}
 	formsNested   = &hcl.BodySchema{
-		Attributes: []hcl.AttributeSchema{{Name: "x"}, {Name: "y"}},
-		Blocks:     []hcl.BlockHeaderSchema{{Type: "n"}, {Type: "k", LabelNames: []string{"name"}}},
+		Attributes: []hcl.AttributeSchema{{Name: "x"}, {Name: "y"}, {Name: "z"}}, // z: content of a nested dynamic "n"/"k"
+		Blocks:     []hcl.BlockHeaderSchema{{Type: "n"}, {Type: "k", LabelNames: []string{"name"}}, {Type: "dynamic", LabelNames: []string{"type"}}},
 	}
 	formsDyn = &hcl.BodySchema{
 		Attributes: []hcl.AttributeSchema{{Name: "for_each"}, {Name: "iterator"}, {Name: "labels"}},
@@ -467,6 +467,24 @@ func (f *jsonForms) genCfg(wide int, wideLabels bool) *absBody {
 		if f.r.Chance(0.4) {
 			content.blocks = append(content.blocks, &absBlock{typ: "n", body: &absBody{attrs: []absAttr{{"z", "\"${u.value}\""}}}})
 		}
+		if f.r.Chance(0.6) {
+			// nested dynamic blocks (second phase, nested.go): the for_each holds splats
+			// over long collections, the labels come from both iterators
+			for i, n := 0, 1+f.r.Small(1); i < n; i++ {
+				typ := f.r.Pick("n", "k")
+				ife := f.r.Pick("big[*].id", "[for i, n in big.*.name : n if i % 9 == 0]", "[for i, v in flatten(big[*].nested[*].v) : v if i % 12 == 0]", "[for x in big[*].id : x if x % 6 == 0]",
+					"groups[0].members[*].name", "[for i, t in concat(big[*].tags...) : t if i % 10 == 0]", "ys[*].tags[*]", "[u.key, u.value]", "{ for m in big[*] : m.name => m.id if m.id % 7 == 0 }")
+				dyn := &absBody{
+					attrs:  []absAttr{{"for_each", "\"${" + ife + "}\""}},
+					blocks: []*absBlock{{typ: "content", body: &absBody{attrs: []absAttr{{"z", f.r.Pick("\"${u.key}-${"+typ+".key}\"", "\"${"+typ+".value}\"", "[\"${u.value}\", \"${"+typ+".key}\"]")}}}}},
+				}
+				if typ == "k" {
+					dyn.attrs = append(dyn.attrs, absAttr{"labels", f.r.Pick("[\"${u.key}.${k.key}\"]", "[\"l${k.key}\"]")})
+				}
+				content.blocks = append(content.blocks, &absBlock{typ: "dynamic", labels: []string{typ}, body: dyn})
+			}
+			f.hit("forms:nested-dynamic-block")
+		}
 		top.blocks = append(top.blocks, &absBlock{typ: "dynamic", labels: []string{"u"}, body: &absBody{
 			attrs:  []absAttr{{"for_each", "\"${" + fe + "}\""}},
 			blocks: []*absBlock{{typ: "content", body: content}},
@@ -685,6 +703,7 @@ type coldWorkload struct {
 	expect    map[string]string // op name -> independently computed expected result
 	feat      map[string]int
 	exprLike  bool
+	nested    func(r *hv.Rng) *nestedPlan // second phase (nested.go); nil = none
 }
 
 func (w *coldWorkload) input(rc roundCfg) string {
@@ -829,6 +848,9 @@ func (rn *runner) coldRounds(w *coldWorkload, rc roundCfg, rounds int) {
 		}()
 	}
 	rep := rn.rep
+	if w.feat["forms:nested-dynamic-block"] > 0 && rc.G > 8 {
+		rc.G = 8 // long loops
+	}
 	rep.Hist("item:" + w.kind)
 	rep.Hist(fmt.Sprintf("G:%02d", rc.G))
 	for k, v := range w.feat {
@@ -884,6 +906,13 @@ func (rn *runner) coldRounds(w *coldWorkload, rc roundCfg, rounds int) {
 		rep.Hist("oracle-ok:first-use")
 	}
 	rn.reportColdDiffs(diffs, names, ref, input, "first use of a freshly parsed tree")
+	// second phase (nested.go): nested bodies and expressions extracted once, then shared
+	if w.nested != nil {
+		if p := w.nested(rn.r); p != nil {
+			runtime.GOMAXPROCS(rc.procs)
+			rn.nestedPhase(p, rc, evalCtx, input)
+		}
+	}
 }
 
 // coldBursts is the first-use supplement of runRound / contentRound: n more
@@ -912,7 +941,8 @@ func (rn *runner) coldBursts(build func() []opFn, n int, G int, evalCtx func(int
 }
 
 func formsWorkload(src, expect string, feat map[string]int) *coldWorkload {
-	w := &coldWorkload{kind: "json-forms", src: src, feat: feat, build: func() []opFn { return formsOps(src) }}
+	w := &coldWorkload{kind: "json-forms", src: src, feat: feat, build: func() []opFn { return formsOps(src) },
+		nested: func(r *hv.Rng) *nestedPlan { return formsPlan(r, src) }}
 	if expect != "" {
 		w.expect = map[string]string{"content-deep": expect}
 	}
@@ -927,6 +957,9 @@ func formsRounds(src string) int {
 	}
 	if len(src) > 1500 {
 		n /= 2
+	}
+	if strings.Contains(src, "${big") || strings.Contains(src, " big") || strings.Contains(src, "groups[") {
+		n = (n + 2) / 3 // nested dynamic blocks over the long collections: one call is thousands of splat iterations
 	}
 	return n
 }
